@@ -329,9 +329,20 @@ fn execute(plan: &Value, w: &World, cfg: &Cfg, slot: usize) -> Outcome {
         std::fs::metadata("/dev/full").map(|m| m.file_type().is_char_device()).unwrap_or(false)
     };
     let sink_full = plan["sink"] == "dev-full" && dev_full_ok;
-    let oname = plan["output_name"].as_str().unwrap_or("out.json");
+    // (LONGNAME: a file name of 250 bytes, five short of the limit of common file systems)
+    let long_name = format!("{}.json", "n".repeat(245));
+    let oname = match plan["output_name"].as_str().unwrap_or("out.json") {
+        "LONGNAME" => long_name.as_str(),
+        x => x,
+    };
+    // character devices and pipes as --output: /dev/null (nothing to read back; a good reply must
+    // still end in exit status 0) and /dev/stdout (the JSON then arrives on the captured stdout)
+    let sink_null = plan["sink"] == "dev-null" && !plan["output"].is_null();
+    let sink_stdout = plan["sink"] == "dev-stdout" && !plan["output"].is_null();
     let (out_path, out_arg) = match plan["output_form"].as_str() {
         _ if sink_full => (PathBuf::from("/dev/full"), "/dev/full".to_string()),
+        _ if sink_null => (PathBuf::from("/dev/null"), "/dev/null".to_string()),
+        _ if sink_stdout => (PathBuf::from("/dev/stdout"), "/dev/stdout".to_string()),
         Some("rel") => (dir.join(os(oname)), oname.to_string()),
         Some("rel-sub") => (dir.join("sub").join(os(oname)), format!("sub/../sub/{}", oname)),
         _ => (dir.join(os(oname)), dir.join(oname).display().to_string()),
@@ -373,10 +384,10 @@ fn execute(plan: &Value, w: &World, cfg: &Cfg, slot: usize) -> Outcome {
     // reports failure is accepted, and what it left in the file is not judged (the reply was good:
     // the "untouched on failure" clause is about server-side failures).
     let sink_fsize = plan["sink"] == "fsize" && !plan["output"].is_null() && !sink_full && !sink_dir;
-    let pre = if sink_full || sink_dir { None } else { pre };
+    let pre = if sink_full || sink_dir || sink_null || sink_stdout { None } else { pre };
     // `symlink`: the --output path is a symbolic link to a file holding old text; whatever the
     // tool does, reading through the path afterwards must give the JSON (success) or the old text
-    let via_symlink = plan["output"] == "symlink" && !sink_full && !sink_dir;
+    let via_symlink = plan["output"] == "symlink" && !sink_full && !sink_dir && !sink_null && !sink_stdout;
     let pre = if via_symlink { Some(OLD_TEXT.to_vec()) } else { pre };
     if let Some(p) = &pre {
         if via_symlink {
@@ -447,16 +458,19 @@ fn execute(plan: &Value, w: &World, cfg: &Cfg, slot: usize) -> Outcome {
     let env: Vec<(&str, &str)> = match plan["env"].as_str() {
         Some("rust-log-trace") => vec![("RUST_LOG", "trace")],
         Some("rust-log-cli-info") => vec![("RUST_LOG", "graphql_client_cli=info,warn")],
+        // variables named after the tool and its flags (as an `env` fallback of the argument
+        // parser would name them): the shipped tool reads none of them
+        Some("flag-like-vars") => vec![("AUTHORIZATION", "env-token-A"), ("GRAPHQL_CLIENT_AUTHORIZATION", "env-token-B"), ("GRAPHQL_AUTHORIZATION", "env-token-C"), ("HEADER", "X-Env: 1"), ("GRAPHQL_CLIENT_HEADER", "X-Env: 2"), ("OUTPUT", "env-output.json"), ("GRAPHQL_CLIENT_OUTPUT", "env-output2.json"), ("SCHEMA_LOCATION", "http://127.0.0.1:9/env"), ("NO_SSL", "true"), ("IS_ONE_OF", "true"), ("SPECIFY_BY_URL", "true"), ("GRAPHQL_CLIENT_IS_ONE_OF", "true"), ("GRAPHQL_CLIENT_SPECIFY_BY_URL", "true"), ("BEARER_TOKEN", "env-token-D"), ("TOKEN", "env-token-E")],
         Some("locale-tz") => vec![("LANG", "tr_TR.UTF-8"), ("LC_ALL", "tr_TR.UTF-8"), ("TZ", "Pacific/Kiritimati"), ("TERM", "xterm-256color"), ("COLUMNS", "20")],
         _ => vec![],
     };
     let (code, stdout, stderr, timed_out) = run_cli_env(cfg, &args, &dir, 90, &env, sink_full && plan["output"].is_null(), if sink_fsize { plan["fsize_limit"].as_u64() } else { None });
     let seen = endpoint.finish();
     // (/dev/full reads as an endless stream of zeros: never read it back)
-    let after: Option<Vec<u8>> = if sink_full { None } else { std::fs::read(&out_path).ok() };
+    let after: Option<Vec<u8>> = if sink_full || sink_null { None } else if sink_stdout { Some(stdout.clone()) } else { std::fs::read(&out_path).ok() };
 
     // files next to the output that were not there before
-    let strays: Vec<String> = if sink_full { vec![] } else {
+    let strays: Vec<String> = if sink_full || sink_null || sink_stdout { vec![] } else {
         let parent = out_path.parent().unwrap_or(&dir).to_path_buf();
         std::fs::read_dir(&parent).map(|rd| rd.filter_map(|e| e.ok()).filter(|e| e.file_name() != os(oname)).map(|e| e.file_name().to_string_lossy().to_string()).filter(|n| n != "sub" && n != "real-target.dat" && !n.starts_with("written") && n != "A" && n != "B").collect()).unwrap_or_default()
     };
@@ -576,6 +590,8 @@ fn execute(plan: &Value, w: &World, cfg: &Cfg, slot: usize) -> Outcome {
             let served_value: Value = serde_json::from_slice(body).unwrap();
             if !exit_ok {
                 push("success-expected-but-failed", format!("2xx reply with a JSON body, exit status {:?}, stderr: {}", code, stderr.chars().take(300).collect::<String>()));
+            } else if sink_null {
+                // nothing to read back from /dev/null: the exit status is all there is
             } else {
                 let written: Option<Vec<u8>> = if plan["output"].is_null() { Some(stdout.clone()) } else { after.clone() };
                 match written.as_deref().map(serde_json::from_slice::<Value>) {
@@ -602,7 +618,7 @@ fn execute(plan: &Value, w: &World, cfg: &Cfg, slot: usize) -> Outcome {
     // ---- last clause: the written file generates the same code as the served SDL
     let mut codegen_checked = false;
     let served = served_cache.lock().unwrap().take();
-    if v.is_empty() && !refused && !sink_full && exit_ok && plan::success_expected(&built.meaning) && plan["script"]["body"]["kind"] == "schema" {
+    if v.is_empty() && !refused && !sink_full && !sink_null && !sink_stdout && exit_ok && plan::success_expected(&built.meaning) && plan["script"]["body"]["kind"] == "schema" {
         if let Some(s) = served {
             let one_of_ok = !s.has_one_of || plan["is_one_of"].as_bool().unwrap_or(false);
             if s.arguable.is_empty() && one_of_ok {
@@ -800,6 +816,9 @@ fn absorb(a: &mut Agg, sub: u64, p: &Value, o: &Outcome) {
         a.success_runs += 1;
         if p["sink"] == "is-dir" && !p["output"].is_null() {
             bump(&mut a.fault_kinds, "fired:output-path-is-a-directory(good reply)");
+        }
+        if (p["sink"] == "dev-null" || p["sink"] == "dev-stdout") && !p["output"].is_null() {
+            bump(&mut a.fault_kinds, "fired:output-is-a-device-or-pipe(/dev/null,/dev/stdout; good reply)");
         }
         if p["sink"] == "fsize" && !p["output"].is_null() {
             bump(&mut a.fault_kinds, "fired:output-file-size-limit(good reply)");
